@@ -7,8 +7,7 @@
      nothing    nothing else is emitted except the synthetic entries of Integrate;
      synthetic  the ERR entries extend the typed word;
      passthrough CARAPACE_UNFILTERED passes the set through; channel formats are not integrated.
-   REFUTED part (known finding C02-filler): the `_` filler is built from the word with E/ER/ERR
-   stripped and does not extend a word with such an ending.
+     filler     the `_` placeholder extends the typed word as well (since the repair recorded as C02-filler).
    Stretch, not proved here (oracle + correspondence only): the bash/tcsh common-prefix collapse
    (and its refutation under case-insensitive matching), bash list mode. *)
 From Coq Require Import Permutation.
@@ -47,7 +46,7 @@ Theorem C02_nothing_else_integrate : forall msgs vs w es ers ds drs vs1,
     (forall a, In a added -> contains_value vs (value a) = false) /\
     NoDup (map value added) /\
     Permutation (integrate msgs vs w es ers ds drs)
-                (vs ++ added ++ match vs ++ added with [_] => [filler (strip_err w) ds drs] | _ => [] end).
+                (vs ++ added ++ match vs ++ added with [_] => [filler w ds drs] | _ => [] end).
 Proof. exact integrate_spec. Qed.
 Print Assumptions C02_nothing_else_integrate.
 
@@ -56,15 +55,9 @@ Theorem C02_synthetic_extend : forall w es ers msgs a,
 Proof. exact err_entry_extends. Qed.
 Print Assumptions C02_synthetic_extend.
 
-Theorem C02_filler_extends_unstripped : forall w ds drs,
-  strip_err w = w -> has_prefix (value (filler (strip_err w) ds drs)) w = true.
-Proof. exact filler_extends_unstripped. Qed.
-Print Assumptions C02_filler_extends_unstripped.
-
-Theorem C02_filler_refuted :
-  exists w ds drs, has_prefix (value (filler (strip_err w) ds drs)) w = false.
-Proof. exact filler_refuted. Qed.
-Print Assumptions C02_filler_refuted.
+Theorem C02_filler_extends : forall w ds drs, has_prefix (value (filler w ds drs)) w = true.
+Proof. exact filler_extends. Qed.
+Print Assumptions C02_filler_extends.
 
 Theorem C02_passthrough : forall e w vs,
   unfiltered e = true -> nocolor e = false -> stage_filter e w vs = vs.
